@@ -33,6 +33,7 @@ RULE = (
 )
 ASSUMPTIONS = [
     "plain-ndarray semantics are the reference for element selection and shapes; element values must be bit-identical",
+    "array forms of objects are also taken in every ordered pair of (system, flavor, values) whose stored numbers are equal (same numbers in another coordinate system; +0.0 vs -0.0): the second conversion must not depend on the first",
     "integer indexing to a single element must give the object-backend class of the same flavor and dimension with identical coordinates and coordinate system",
 ]
 CAP_S = {"quick": 900, "thorough": 3600}
@@ -64,7 +65,7 @@ def bounds(tier):
 
 
 def shards(tier):
-    return [{"dim": d, "sys": list(s)} for d in (2, 3, 4) for s in L.SYSTEMS[d]]
+    return [{"kind": "object_history", "dim": d} for d in (4, 3, 2)] + [{"dim": d, "sys": list(s)} for d in (2, 3, 4) for s in L.SYSTEMS[d]]
 
 
 def rows_for(dim, system, n):
@@ -286,14 +287,58 @@ def check(res: Result, dim, system, tier, only=None):
     res.sample({"sys": list(system), "shapes": [list(s) for s in SHAPES], "index_expressions_rank2": len(index_expressions((2, 2)))})
 
 
+HVALS = [(1.5, 0.75, 0.875, 2.5), (0.0, 0.0, 0.0, 0.0), (-0.0, 0.0, -0.0, 0.0), (0.75, 0.75, 0.75, 0.75)]
+FORMS = (("obj.__array__()", lambda o: o.__array__()), ("numpy.asanyarray(obj)", lambda o: np.asanyarray(o)), ("numpy.asarray(obj)", lambda o: np.asarray(o)))
+
+
+def check_object_history(res: Result, dim):
+    """Array forms of vector objects do not depend on which objects were converted before: every ordered pair of (coordinate
+    system, flavor, value tuple) with numerically equal stored values (same numbers in another coordinate system, or +0.0 vs
+    -0.0) is converted one after the other in this process; the second must still give its own fields, class and bits."""
+    states = [(s, f, v[:dim]) for s in L.SYSTEMS[dim] for f in ("generic", "momentum") for v in HVALS]
+    for s1, f1, v1 in states:
+        for s2, f2, v2 in states:
+            if tuple(v1) != tuple(v2):  # numerically equal tuples only (0.0 == -0.0): the colliding ones
+                continue
+            o1, o2 = B.make_obj(s1, f1, v1), B.make_obj(s2, f2, v2)
+            for expr, f in FORMS:
+                res.states += 1
+                res.evaluations += 1
+                res.transitions += 2
+                res.traces += 1
+                case = {"kind": "object_history", "dim": dim, "first": [list(s1), f1, list(v1)], "second": [list(s2), f2, list(v2)], "expr": expr}
+                cls_key = f"object_history|{expr}|{dim}D|{L.sysname(s2)}|{f2}"
+                try:
+                    f(o1)
+                    r = f(o2)
+                except Exception as ex:  # noqa: BLE001
+                    res.violation(cls_key + "|raises", f"{expr} raised {type(ex).__name__}: {ex}", case)
+                    continue
+                want_cls = np.ndarray if expr == "numpy.asarray(obj)" else NPCLS[(f2, dim)]
+                names = L.field_names(s2)
+                rp = r.view(np.ndarray)
+                want = np.array([tuple(v2)], dtype=[(n, np.float64) for n in names])
+                if type(r) is not want_cls or rp.dtype.names != tuple(names) or rp.size != 1 or rp.reshape(-1).tobytes() != want.tobytes():
+                    res.violation(cls_key, f"after {expr} of {type(o1).__name__}{L.system_of(o1)}, {expr} of {type(o2).__name__}{L.system_of(o2)} is {type(r).__name__} {rp!r}; expected {want_cls.__name__} with fields {names} = {v2}", case)
+                    continue
+                res.nontrivial += 1
+    res.sample({"kind": "object_history", "dim": dim, "states": len(states), "value_tuples": [list(v[:dim]) for v in HVALS]})
+
+
 def run_shard(shard, tier):
     res = Result()
+    if shard.get("kind") == "object_history":
+        check_object_history(res, shard["dim"])
+        return res
     check(res, shard["dim"], tuple(shard["sys"]), tier)
     return res
 
 
 def replay(case):
     res = Result()
+    if case.get("kind") == "object_history":
+        check_object_history(res, case["dim"])
+        return res
     system = tuple(case["sys"])
     kind = case.get("kind")
     only = {"index": "index", "view": "misc", "column": "misc", "object": "object"}.get(kind)
